@@ -725,7 +725,9 @@ class DFunction(Saveable, DataSaveable):
                 for k in range(0, t.length-1):
                     yy[w.length-k-1] = numpy.conj(y[k+1])
 
-                Y = 2.0*numpy.fft.fftshift(numpy.fft.fft(yy))*t.step
+                # (fft is not normalized: the Fourier sum over the extended data
+                # has the prefactor dt and nothing else)
+                Y = numpy.fft.fftshift(numpy.fft.fft(yy))*t.step
 
             else:
                 raise Exception("Unknown axis type"
